@@ -129,6 +129,18 @@ theorem c09_reuse_h265 (donl : Bool) (before : List (Option Bytes)) (p : Option 
     (depHist donl (before ++ [p])).getLast? = (depHist donl [p]).getLast? := by
   simp [depHist]
 
+/-- the four exported sub-parsers, called directly, never panic either -/
+theorem c09_nopanic_h265_sub (which : Nat) (donl : Bool) (p : Option Bytes) :
+    (subDecode which donl p).isPanic = false := by
+  have h : ∀ r : Res Pkt, r ≠ .panic → ((r.map Pkt.view).coarse).isPanic = false := by
+    intro r hr; cases r <;> simp_all [Res.map, Res.coarse, Res.isPanic]
+  unfold subDecode
+  split
+  · exact h _ (parseSingle_nopanic _ _)
+  · exact h _ (parseAgg_nopanic _ _)
+  · exact h _ (parseFU_nopanic _ _)
+  · exact h _ (parsePACI_nopanic _)
+
 /-- IsPartitionHead / IsPartitionTail are total functions of the payload (nil included) -/
 example : isPartitionHead [] = false ∧ isPartitionTail true [] = true := by decide
 
